@@ -42,7 +42,7 @@ def sizeHop (j : Json) : Except String (Nat × Nat) := do
 /-! ### the call layer: shapes, spellings, defaults, length-changing caller operations -/
 
 /-- a JSON value read as a numeric parameter: int, `{"b":…}` (bool), `{"f":repr,"q":"p/q"}` (float with its
-exact value), `{"fr":"p/q"}` (Fraction), `null` (None); anything else has no arithmetic -/
+exact value), `{"f":"inf"|"-inf"|"nan"}` (non-finite float), `{"fr":"p/q"}` (Fraction), `null` (None); anything else has no arithmetic -/
 def asNum (j : Json) : Num :=
   match j with
   | Json.int i => .int i
@@ -50,6 +50,9 @@ def asNum (j : Json) : Num :=
   | Json.obj _ =>
     match j.getObjVal? "b", j.getObjVal? "f", j.getObjVal? "q", j.getObjVal? "fr" with
     | some (Json.bool b), _, _, _ => .int (if b then 1 else 0)
+    | _, some (Json.str "inf"), none, _ => .fnf .pinf
+    | _, some (Json.str "-inf"), none, _ => .fnf .ninf
+    | _, some (Json.str "nan"), none, _ => .fnf .nan
     | _, some _, some q, _ => match getRat q with | .ok r => .flt r | _ => .other
     | _, _, _, some q => match getRat q with | .ok r => .frac r | _ => .other
     | _, _, _, _ => .other
@@ -87,6 +90,9 @@ def getOp (j : Json) : Except String (DqOp Json) := do
   | [Json.str "extend", vs] => pure (.extend (← getArr vs))
   | [Json.str "del", i] => pure (.del (← getNat i))
   | [Json.str "insert", i, v] => pure (.insert (← getNat i) v)
+  | [Json.str "seti", i, v] => pure (.setI (← getInt i) v)
+  | [Json.str "deli", i] => pure (.delI (← getInt i))
+  | [Json.str "inserti", i, v] => pure (.insertI (← getInt i) v)
   | _ => pure (.keep (← getEdit j))
 
 /-- the float zero, default of `padval` and of `zero` -/
